@@ -14,7 +14,7 @@ run_one() { # kind patch props...
   rsync -a --exclude .git /repo/ "$TMP/"
   if ! (cd "$TMP" && patch -p1 -s < "$ROOT/selftest/$kind/$patch"); then echo "SELFTEST-ERROR $patch does not apply"; fail=1; rm -rf "$TMP"; return; fi
   for prop in "$@"; do
-    out=$(GVC_REPO="$TMP" GVC_OUT="$TMP/.gvc-out" "$ROOT/check" "$prop" quick 2>&1); rc=$?
+    out=$(GVC_REPO="$TMP" GVC_OUT="$TMP/.gvc-out" "$ROOT/check" "$prop" quick 2>&1 </dev/null); rc=$?
     nviol=$(echo "$out" | grep -c '^VIOLATION')
     if [ "$kind" = mutants ]; then
       if [ $rc -eq 1 ] && [ "$nviol" -gt 0 ]; then echo "ok   mutant $patch caught by $prop ($nviol violation lines; first: $(echo "$out" | grep '^VIOLATION' | head -1 | sed 's/.*obligation=//'))"
